@@ -94,7 +94,7 @@ func (p *diffProp) RunCase(tier string, seed int64, idx int) caseResult {
 	o := f.Opts
 	o.Prop = p.id
 	out := diffCase(in, cfgs, o)
-	res := caseResult{Runs: int64(out.Runs), Discarded: out.Discarded, Nontrivial: out.Nontrivial, Stats: out.Stats, MaxRatio: out.MaxRatio}
+	res := caseResult{Runs: int64(out.Runs), Discarded: out.Discarded, Nontrivial: out.Nontrivial, Stats: out.Stats, MaxRatio: out.MaxRatio, MaxTickRatio: out.MaxTickRatio}
 	if res.Stats == nil {
 		res.Stats = map[string]int64{}
 	}
@@ -187,7 +187,7 @@ func init() {
 			{Name: "mixed", Quick: 400, Thorough: 20000, Gen: famMixed, Opts: ls},
 		},
 		rule:   "programs drawn from family 'mixed' (10-230 instructions, all 45 mnemonics, loads/stores over 0.5-8 KB, forward branches with shadows, j/jal/jalr call-return, down-counting loops, ret / fall-off / end label) with boundary-biased initial registers and random memory; each run on every variant (quick: 2 sampled EU/WU/core configurations per variant, thorough: all 81). A case is non-trivial when the reference executes >= 5 instructions and has a taken branch, a memory access or a register written twice; distinct = distinct hash of program text + initial state.",
-		assume: []string{diffAssume, "logical tick budget 24*309*(executed+length+64) loop iterations decides termination"},
+		assume: []string{diffAssume, "logical tick budget 8*309*(executed+length+64) loop iterations decides termination"},
 		minEv:  []string{"executed", "flushes", "forwards"},
 	})
 	register(&diffProp{
@@ -222,14 +222,14 @@ func init() {
 	register(&diffProp{
 		id: "C07",
 		fams: []famSpec{
-			{Name: "regress", Quick: len(regressCases), Thorough: len(regressCases), Gen: famRegress, Opts: diffOpts{}, AllCfg: true},
+			{Name: "regress", Quick: len(regressCases), Thorough: len(regressCases), Gen: famRegress, Opts: diffOpts{TermOnly: true}, AllCfg: true},
 			{Name: "regress-err", Quick: len(regressErrCases), Thorough: len(regressErrCases), Gen: famRegressErr, Opts: diffOpts{ExpectErr: true}, AllCfg: true},
-			{Name: "stress-term", Quick: 500, Thorough: 25000, Gen: famStressTerm, Opts: diffOpts{}},
-			{Name: "mixed", Quick: 100, Thorough: 5000, Gen: famMixed, Opts: diffOpts{}},
+			{Name: "stress-term", Quick: 500, Thorough: 25000, Gen: famStressTerm, Opts: diffOpts{TermOnly: true}},
+			{Name: "mixed", Quick: 100, Thorough: 5000, Gen: famMixed, Opts: diffOpts{TermOnly: true}},
 			{Name: "errpath", Quick: 200, Thorough: 10000, Gen: famErrpath, Opts: diffOpts{ExpectErr: true}},
 		},
-		rule:   "families 'stress-term' (store then load of one line, back-to-back taken branches, store bursts, loops with misses, jump chains, ends on ret / end label / mid store burst, ra != 0 at the end), 'mixed', and 'errpath' (div/rem by zero or undefined label reached first / late / in a loop / right after a taken branch / completing during a flush drain). Verdicts: tick budget 24*309*(executed+length+64) loop iterations exceeded, Go panic, worker killed, cycles above the same bound; for errpath anything but a non-nil error. Non-trivial as in C01 (errpath: reference reaches the defined error).",
-		assume: []string{diffAssume, "termination is decided as bounded progress: a run that needs more than 24*309*(executed+length+64) loop iterations is reported as non-terminating; the returned cycle count must stay below 8*309*(executed+length+64)"},
+		rule:   "families 'stress-term' (store then load of one line, back-to-back taken branches, store bursts, loops with misses, jump chains, ends on ret / end label / mid store burst, ra != 0 at the end), 'mixed', and 'errpath' (div/rem by zero or undefined label reached first / late / in a loop / right after a taken branch / completing during a flush drain). Verdicts: tick budget 8*309*(executed+length+64) loop iterations exceeded, Go panic, worker killed, cycles above the same bound; for errpath anything but a non-nil error. Non-trivial as in C01 (errpath: reference reaches the defined error).",
+		assume: []string{diffAssume, "termination is decided as bounded progress: a run that needs more than 8*309*(executed+length+64) loop iterations is reported as non-terminating; the returned cycle count must stay below 8*309*(executed+length+64)"},
 		minEv:  []string{"ticks"},
 	})
 	register(&diffProp{
